@@ -10,7 +10,7 @@
 use ruma_html::Html;
 
 use crate::{
-    c14::{case_sx, decode_case, run_streams, tree_sx, Cfg},
+    c14::{case_sx, decode_case, run_streams, tag_of, tree_sx, Cfg},
     sx::{guarded, Sx},
     Emitter,
 };
@@ -43,6 +43,7 @@ pub fn replay(case: &Sx) -> Option<Sx> {
 pub fn run(tier: &str, seed: u64, em: &mut Emitter) {
     run_streams(tier, seed ^ 0x15, |tag, c, d| {
         let c = c.clone().normalise();
-        em.emit(tag, case_sx(&c, d), run_case(&c, d));
+        let (case, out) = (case_sx(&c, d), run_case(&c, d));
+        em.emit(&tag_of(tag, &case, &out), case, out);
     });
 }
